@@ -31,6 +31,36 @@ def check(ctx: Ctx) -> None:
     from .c03 import r1 as c03_r1, r2 as c03_r2
     c03_r2(ctx, "C16.R3")
     c03_r1(ctx, "C16.R4")
+    local_writes_take_the_durable_branch(ctx)
+
+
+def local_writes_take_the_durable_branch(ctx: Ctx, rid: str = "C16.R6") -> None:
+    ctx.rule(rid, "local data files always go through temp + fsync + rename: DataFileWriter takes that branch exactly when its "
+             "filesystem is None, so _get_arrow_filesystem returns a filesystem object only under isinstance(self.storage, "
+             "S3StorageBackend) - for every local configuration it returns None", 2)
+    from .common import facts_at
+    f = ctx.fn("data_operations.DataFileManager._get_arrow_filesystem")
+    g = ctx.cfg(f)
+    rets = [n for n in g.nodes if n.kind == "return" and n.id in g.reachable()]
+    n_none = 0
+    for r in rets:
+        v = r.ast.value  # type: ignore[union-attr]
+        if v is None or (isinstance(v, ast.Constant) and v.value is None):
+            n_none += 1
+            continue
+        s3 = any(pol == "true" and isinstance(e, ast.Call) and (dotted(e.func) or "") == "isinstance" and len(e.args) == 2
+                 and "S3StorageBackend" in norm_text(e.args[1]) and norm_text(e.args[0]).endswith("storage")
+                 for pol, e, _at in facts_at(ctx, f, r))
+        ctx.ob(rid, f, "a filesystem object is returned only for the S3 backend", r, s3,
+               "under isinstance(self.storage, S3StorageBackend)" if s3 else
+               f"`{r.text}` hands a filesystem to the writer on a local backend: DataFileWriter.open then writes straight to the final "
+               "path and close() skips the file fsync, the rename and the directory fsync")
+    ctx.ob(rid, f, "local backends get filesystem None", None, n_none >= 1, f"{n_none} return(s) of None", nontrivial=False)
+    w = ctx.fn("data_operations.DataFileWriter.open")
+    wg = ctx.cfg(w)
+    brs = [b for b in wg.nodes if b.kind == "branch" and b.ast is not None and "_filesystem" in norm_text(b.ast)]
+    ctx.ob(rid, w, "the writer's branch is decided by the filesystem argument", brs[0] if brs else None, bool(brs),
+           "if self._filesystem: direct write (object store) / else: temp file (renamed in close)")
 
 
 def _fsyncs(ctx: Ctx, f: FunctionInfo) -> List[Node]:
